@@ -90,6 +90,7 @@ class ExprComparator : public mp::ExprVisitor<ExprComparator, bool> {
   bool VisitImplication(ImplicationExpr e) { return VisitIf(e); }
   bool VisitIteratedLogical(IteratedLogicalExpr e) { return VisitVarArg(e); }
   bool VisitAllDiff(PairwiseExpr e) { return VisitVarArg(e); }
+  bool VisitNotAllDiff(PairwiseExpr e) { return VisitVarArg(e); }
 };
 
 bool ExprComparator::VisitPLTerm(PLTerm e) {
@@ -237,6 +238,7 @@ class ExprHasher : public mp::ExprVisitor<ExprHasher, size_t> {
   size_t VisitImplication(ImplicationExpr e) { return VisitIf(e); }
   size_t VisitIteratedLogical(IteratedLogicalExpr e) { return VisitVarArg(e); }
   size_t VisitAllDiff(PairwiseExpr e) { return VisitVarArg(e); }
+  size_t VisitNotAllDiff(PairwiseExpr e) { return VisitVarArg(e); }
 
   size_t VisitStringLiteral(StringLiteral s) {
     size_t hash = Hash(s);
